@@ -69,13 +69,16 @@ func c02Log(l *Logger, lvl int, msg string) {
 	}
 }
 
-// c02Alone: the line a fresh logger of this kind writes for the record (fresh pool: New buffer)
+// c02Alone: the line a fresh logger of this kind writes for the record (fresh pool: New buffer). It is computed
+// before anything else is logged: natively the pool is the real, process-wide one, and a reference computed
+// afterwards would be polluted in the same way as the line under test.
 func c02Alone(kind int, lvl int, msg string) string {
 	vxPoolMode(2)
 	w := &c02Rec{}
 	l, _ := c02Root(kind, w, LevelDebug)
 	c02Log(l, lvl, msg)
 	vxPoolMode(0)
+	vxPoolClear()
 	return w.writes[0]
 }
 
@@ -92,6 +95,7 @@ func H_C02_onewrite() {
 		msg = msg + strings.Repeat("x", 17000) // a line larger than the pooled-buffer limit (16 KiB)
 		vxReach("line larger than 16 KiB")
 	}
+	alone := c02Alone(kind, lvl, msg)
 	w := &c02Rec{}
 	l, mu := c02Root(kind, w, threshold)
 	w.mu = mu
@@ -116,7 +120,7 @@ func H_C02_onewrite() {
 	vxAssert(len(line) > 0 && line[len(line)-1] == '\n' && strings.Count(line, "\n") == 1, "C02: the Write does not carry exactly one complete line")
 	vxAssert(w.unlocked == 0, "C02: Write was called without holding the handler's mutex")
 	vxAssert(!vxLockHeld(mu), "C02: the mutex is still held after the record was written")
-	vxAssert(line == c02Alone(kind, lvl, msg), "C02: the line differs from what the record is when logged alone (polluted by a recycled buffer?)")
+	vxAssert(line == alone, "C02: the line differs from what the record is when logged alone (polluted by a recycled buffer?)")
 }
 
 // every logger derived from one handler serialises on the same mutex
@@ -157,10 +161,11 @@ func H_C02_ownership() {
 	}
 	vxFrameBegin()
 	vxFrameAllow(w)
-	l.Info(vxString(1), "k", 2)
+	l.Info(vxString(1), "k", 2, slog.Group("g", slog.Int("n", 3)))
 	n := vxFrameWrites()
 	vxAssert(n == 0, "C02: handling a record stored into shared state other than its own pooled buffer")
 	vxAssert(w.freed == 0, "C02: the line was handed to Write from a buffer already returned to the pool (another goroutine may be filling it)")
+	vxAssert(vxPoolDoublePuts() == 0, "C02: a scratch buffer was returned to its pool twice (two records formatted at the same time would share it)")
 	vxReach("record handled under the ownership monitor")
 }
 
